@@ -684,6 +684,67 @@ def ps_truth(layout, groups):
     return gs, "either"
 
 
+# ---- "iob" family: loops through a bidirectional I/O buffer (i[k] samples the pad that o[k] drives while oe is high)
+IOB_OPS = ("wire", "not", "and")
+
+
+def iob_cases():
+    for W in (1, 2):
+        srcs = ["x"] + list(range(W))                    # free input, or bit k of the buffer's own i
+        for o_src in itertools.product(srcs, repeat=W):
+            for oe_src in srcs:
+                for op in IOB_OPS:
+                    for via in ("direct", "via"):
+                        yield {"part": "iob", "W": W, "o": list(o_src), "oe": oe_src, "op": op, "via": via, "dir": "io"}
+        yield {"part": "iob", "W": W, "o": ["x"] * W, "oe": "x", "op": "wire", "via": "direct", "dir": "i"}
+
+
+def iob_sig(c):
+    return f"iob:{c['dir']}{c['W']}:o=[{','.join(map(str, c['o']))}]:oe={c['oe']}:{c['op']}:{c['via']}"
+
+
+def iob_truth(c):
+    """per-bit reference: i[k] <- o[k], oe (bidirectional buffer only); o[j] / oe <- the i bit they are computed from"""
+    g = {}
+    for k in range(c["W"]):
+        d = set()
+        if c["dir"] == "io":
+            if c["o"][k] != "x":
+                d.add(c["o"][k])
+            if c["oe"] != "x":
+                d.add(c["oe"])
+        g[k] = frozenset(d)
+    return g, ("CombinationalCycle" if M.find_cycle(g) is not None else "ok")
+
+
+def build_iob(c):
+    from amaranth.hdl import Module, Signal, IOPort, IOBufferInstance
+    W = c["W"]
+    m = Module()
+    port = IOPort(W, name="pad")
+    i = Signal(W, name="i")
+    xin = Signal(4, name="xin")
+    ports = [port, xin]
+    if c["dir"] == "i":
+        m.submodules.buf = IOBufferInstance(port, i=i)
+        return m, ports + [i]
+    src = i
+    if c["via"] == "via":
+        src = Signal(W, name="t")
+        m.d.comb += src.eq(i)
+    o = Signal(W, name="o")
+    oe = Signal(1, name="oe")
+
+    def f(s, j):
+        v = xin[j] if s == "x" else src[s]
+        return {"wire": v, "not": ~v, "and": v & xin[2 + j % 2]}[c["op"]]
+    for j in range(W):
+        m.d.comb += o[j].eq(f(c["o"][j], j))
+    m.d.comb += oe.eq(f(c["oe"], W))
+    m.submodules.buf = IOBufferInstance(port, i=i, o=o, oe=oe)
+    return m, ports
+
+
 def dep_sig(case):
     es = " ".join(f"{u}>{v}" for u, v in case["edges"])
     return f"dep:{case['style']}:L{''.join(map(str, case['layout']))}:[{es}]"
